@@ -200,7 +200,7 @@ def main():
                                 if dvec[col] != 0.0:
                                     bad(idx, f"step component of unmentioned variable {col} is {dvec[col]!r}, not 0, at {key}"); ok = False
                         if not ok: break
-                        if be > 1e-9:
+                        if be > 1e-12:  # observed maximum over all tiers and seeds: 4.5e-16
                             bad(idx, f"LU certificate fails at {key}: backward error {be:.3e}"); ok = False; break
                         # the damping term itself: with the extracted lambda the residual A d - b is pure
                         # rounding noise (~1e-16 of den); a solve that used another damping (0, 2*lambda,
